@@ -417,7 +417,7 @@ fn gen(dir: &str) {
     let mut r = Rng::new(seed ^ 0xC13);
     let mut keys = Keys::new();
     let mut out = Out::new(dir);
-    let n = if thorough { 2500 } else { 320 };
+    let n = if thorough { 12000 } else { 1000 };
     for i in 0..n {
         let c = if i % 5 < 2 { let fam = r.below(8); gen_targeted(&mut r, &mut keys, fam) } else { gen_case(&mut r, &mut keys, i) };
         let line = case_line(&c);
